@@ -42,6 +42,7 @@ type Program struct {
 	storeFx    map[*ssa.Function]*storeFnInfo
 	blockReach map[*ssa.BasicBlock]map[*ssa.BasicBlock]bool
 	paramMins  map[string]map[string]int64
+	absCache   map[*ssa.Function]absCached
 }
 
 // LoadConfig controls Load.
